@@ -145,18 +145,8 @@ impl Duration {
 #[verifier::external_body] pub fn f64_neg(a: f64) -> f64 { -a }
 '''
 
-TRAIT = r'''
-// the CelValueDyn trait restated without its supertraits (fmt::Debug + fmt::Display + Send + Sync) and without any_ref (&dyn Any)
-pub trait CelValueDyn {
-    fn as_type(&self) -> CelValue;
-}
-impl DynArc {
-    #[verifier::external_body] pub fn as_type(&self) -> CelValue { unimplemented!() }
-    #[verifier::external_body] pub fn access(&self, key: &str) -> CelValue { unimplemented!() }
-    #[verifier::external_body] pub fn eq(&self, rhs: &CelValue) -> CelValue { unimplemented!() }
-    #[verifier::external_body] pub fn is_truthy(&self) -> bool { unimplemented!() }
-}
-'''
+TRAIT = C.TRAIT_FULL
+
 
 OPSPEC = r'''
 // vstd's operator traits carry a trait-level contract (XSpecImpl).  The CelValue operators are total (req = true) and are
@@ -236,7 +226,7 @@ def build():
     C.value_types(U)
     U.raw(C.DERIVED, 'assumed derived impls')
     U.raw(TRAIT, 'CelValueDyn trait restated')
-    U.raw(C.VALUE_SPECS + SPECS, 'spec functions')
+    U.raw(C.VALUE_SPECS + C.TRUTHY_SPEC + SPECS, 'spec functions')
     U.raw(OPSPEC, 'operator trait plumbing')
     U.raw(CHRONO, 'assumed chrono / float specs')
     U.raw(C.STD_SPECS, 'assumed std specs')
@@ -252,7 +242,6 @@ def build():
         'extend': A(stub=True, ensures=[('def', 'final(self)@ == old(self)@ + into_iter_seq(bytes)')], note='generic IntoIterator; only used with Vec<u8>'),
     })
     U.raw(r'''
-impl View for CelBytes { type V = Seq<u8>; closed spec fn view(&self) -> Seq<u8> { self.inner@ } }
 ''', 'views')
     U.extract(C.CV, 'impl CelValue', fns={
         'from_int': simple_ctor('r == CelValue::Int(val)'),
@@ -267,7 +256,7 @@ impl View for CelBytes { type V = Seq<u8>; closed spec fn view(&self) -> Seq<u8>
         'is_err': A(ret='r', ensures=[('def', 'r == (self is Err)')], props=('C01', 'C03')),
         'type_prop': C.type_prop_contract(),
         'error_prop_or': C.err_prop_contract(),
-    })
+    }, others='stub')
     U.extract(C.CV, 'impl From<i64> for CelValue', fns={'from': simple_ctor('r == CelValue::Int(val)')})
     U.extract(C.CV, 'impl From<u64> for CelValue', fns={'from': simple_ctor('r == CelValue::UInt(val)')})
     U.extract(C.CV, 'impl From<f64> for CelValue', fns={'from': simple_ctor('r == CelValue::Float(val)')})
@@ -279,8 +268,7 @@ impl vstd::std_specs::convert::FromSpecImpl<f64> for CelValue { open spec fn obe
 impl vstd::std_specs::convert::FromSpecImpl<bool> for CelValue { open spec fn obeys_from_spec() -> bool { true } open spec fn from_spec(v: bool) -> Self { CelValue::Bool(v) } }
 ''', 'From spec impls (the ensures of the extracted From impls are checked against these)')
     U.extract(C.CV, 'impl CelValueDyn for CelValue', fns={
-        'as_type': A(stub=True, note='only feeds error messages'),
-    })
+    }, others='stub', skip=('any_ref',))
     U.extract(C.CV, 'impl Add for CelValue', fns={'add': binop('Add', 'add', ADD_OTHER)})
     U.extract(C.CV, 'impl Sub for CelValue', fns={'sub': binop('Sub', 'sub', SUB_OTHER)})
     U.extract(C.CV, 'impl Mul for CelValue', fns={'mul': binop('Mul', 'mul', ONLY_NUMBERS)})
